@@ -308,14 +308,24 @@ def _c14_job(name, n, seed):
     """C14 at size: arguments bit-identical after the call, and a repeated call (same global seed) repeats the result"""
     from .props.c14 import snap_value  # noqa: F401  (imported for its side-effect-free helpers)
     rng = np.random.default_rng(seed)
-    jn, fn, a, kw = build(name, n, rng)
+    try:
+        jn, fn, a, kw = build(name, n, rng)
+    except Exception:
+        if n < 8:
+            return []                         # this routine's builder has no instance that small
+        raise
     pre = [J.arg_digest(x) for x in a]
     outs = []
     for rep in range(2):
         np.random.seed(seed % (2 ** 31))
         a_run = a if rep == 0 else a          # the same objects again
-        with contextlib.redirect_stdout(io.StringIO()):
-            outs.append(fn(*a_run, **kw))
+        try:
+            with contextlib.redirect_stdout(io.StringIO()):
+                outs.append(fn(*a_run, **kw))
+        except Exception as e:
+            if n >= 8:
+                raise
+            outs.append("raised:" + type(e).__name__)     # boundary sizes may be outside the domain (option values of the builder)
     post = [J.arg_digest(x) for x in a]
     inplace = name.split(".")[0] in J.INPLACE_BY_DESIGN
 
@@ -343,7 +353,7 @@ def stage(ctx, quick=False):
         return
     sizes = [8, 13, 34, 67] if quick else [8, 13, 21, 34, 67, 130]
     if ctx.pid == "C14":
-        sizes = [34, 67] if quick else [13, 34, 67, 130]
+        sizes = [2, 3, 34, 67] if quick else [2, 3, 4, 13, 34, 67, 130]
     jobs = []
     for nm in names:
         for n in sizes:
